@@ -750,6 +750,29 @@ def rendered_name(c) -> str:
     return f"{c.__module__}.{c.__qualname__}"
 
 
+def real_type_ident(t):
+    """what CodeBuilder.get_type_name_identifier really returns for the type t and which object it registers under which
+    alias (the method only uses self.ensure_object_imported): -> (rendering, pasted text, alias or None or '<wrong-object>')"""
+    from mashumaro.core.meta.code.builder import CodeBuilder
+    from mashumaro.core.meta.helpers import type_name
+
+    class _Rec:
+        def __init__(self):
+            self.reg = []
+
+        def ensure_object_imported(self, obj, name=None):
+            self.reg.append((obj, name))
+    rec = _Rec()
+    text = CodeBuilder.get_type_name_identifier(rec, t)
+    if not rec.reg:
+        alias = None
+    elif len(rec.reg) == 1 and rec.reg[0][0] is t and isinstance(rec.reg[0][1], str):
+        alias = rec.reg[0][1]
+    else:
+        alias = "<wrong-object>"
+    return type_name(t), text, alias
+
+
 def clean(s: str) -> str:
     import re
     return re.sub(r"\W|^(?=\d)", "_", s) if s else "_"
@@ -956,9 +979,22 @@ def classify(f: dict, d: dict, module: str, src: str = "") -> dict:
         cause = "other"
         if name.lstrip().startswith("CodeBuilder(") and "<locals>" in name:
             cause = "local-class-in-lazy-stub"
+        elif _local_in_type_arg_list(name):
+            cause = "generic-serializable-local-type-arg"
 
         return {"kind": "generated-syntax-error", "cause": cause}
     return {"kind": kind, "cause": "other"}
+
+
+def _local_in_type_arg_list(line: str) -> bool:
+    """the offending line calls X._serialize([..]) / X._deserialize(.., [..]) of a GenericSerializableType and the marker of a
+    local class sits inside that list of type arguments"""
+    import re
+    for m in re.finditer(r"\._serialize\(\[(.*?)\]\)|\._deserialize\(.*?, \[(.*)\]\)", line):
+        inner = m.group(1) if m.group(1) is not None else m.group(2)
+        if inner and "<locals>" in inner:
+            return True
+    return False
 
 
 def _only_in_union_type_test(prog: str, name: str) -> bool:
